@@ -90,8 +90,11 @@ def concrete(inp):
                 for Tp, Pp in ((293.15, None), (None, 1.5), (None, None)):
                     i = {"kind": kind, "A": 0.05, "T0": 330.0, "m0": 3.0, "x0": 0.3, "dt": 0.2, "N": 3, "Tp": Tp, "Pp": Pp, "basis": "molar", "initial_permeances": True}
                     m = realrun.process(i, mix=mix, membrane=mem)[0]
-                    for safe in (False, True):
-                        d = Path(root) / ("m_%s_%s_%s" % (kind, Tp, safe))
+                    kg = [(p[0].value, p[1].value) for p in m.permeances]
+                    for safe, held_in in ((False, None), (True, None), (False, Units.GPU), (True, Units.SI)):
+                        if held_in:
+                            m.permeances = [(pv.Permeance(a).convert(held_in, mix.first_component), pv.Permeance(b).convert(held_in, mix.second_component)) for a, b in kg]
+                        d = Path(root) / ("m_%s_%s_%s_%s_%s" % (kind, Tp, Pp, safe, held_in))
                         before = set(os.listdir(d / "results")) if (d / "results").exists() else set()
                         m.save(d, is_safe=safe)
                         new = sorted(set(os.listdir(d / "results")) - before)
@@ -99,8 +102,8 @@ def concrete(inp):
                         pairs = [("time", m.time, list(l.time)), ("feed_mass", m.feed_mass, list(l.feed_mass)), ("feed_temperature", m.feed_temperature, list(l.feed_temperature)),
                                  ("evaporation heat", m.feed_evaporation_heat, list(l.feed_evaporation_heat)),
                                  ("flux1", [f[0] for f in m.partial_fluxes], [f[0] for f in l.partial_fluxes]), ("flux2", [f[1] for f in m.partial_fluxes], [f[1] for f in l.partial_fluxes]),
-                                 ("permeance1", [p[0].value for p in m.permeances], [p[0].value for p in l.permeances]),
-                                 ("permeance2", [p[1].value for p in m.permeances], [p[1].value for p in l.permeances]),
+                                 ("permeance1 (held in %s, compared in kg/(m2 h kPa))" % (held_in or "kg"), [p[0] for p in kg], [p[0].value for p in l.permeances]),
+                                 ("permeance2 (held in %s, compared in kg/(m2 h kPa))" % (held_in or "kg"), [p[1] for p in kg], [p[1].value for p in l.permeances]),
                                  ("feed composition", [c.p for c in m.feed_compositions], [c.p for c in l.feed_compositions]),
                                  ("permeate composition", [c.p for c in m.permeate_composition], [c.p for c in l.permeate_composition]),
                                  ("fit alpha", [f.alpha for f in m.permeance_fits], [f.alpha for f in l.permeance_fits]),
@@ -266,11 +269,14 @@ def process_model(job, kind, mode, safe):
     job.bound(process_steps_N=N)
     job.stub("token tunnel: pandas.to_csv / read_csv, json.dump / load, joblib.dump / load run for real on unique tokens", "FLUX / PERM / HVAP / CP / COOL / find_best_fit stubs generate the model")
     mix = build.lift_obj(Mixtures.H2O_EtOH)
-    for basis, init_perm in (("molar", True), ("weight", False)):
+    # third configuration: a model whose permeances are held in SI / GPU (the loader documents a conversion to kg/(m2 h kPa)).  The harness
+    # converts with the float constants of the built-in mixture, the ones the loader uses on the way back (rounding-level identification)
+    c1, c2 = Mixtures.H2O_EtOH.first_component, Mixtures.H2O_EtOH.second_component
+    for basis, init_perm, held_in in (("molar", True, None), ("weight", False, None), ("weight", False, Units.SI if safe else Units.GPU)):
         ps = proc.ProcSetup(kind, mode, basis, None, N, n_curves=2, initial_permeances=init_perm, mix=mix)
         dom = ps.domain()
         inputs = {"what": "process"}
-        tag = "C17/process/%s/%s/%s/%s" % (proc.SHORT[kind], mode, "json" if safe else "binary", basis)
+        tag = "C17/process/%s/%s/%s/%s" % (proc.SHORT[kind], mode, "json" if safe else "binary", basis) + ("/held_in_" + held_in if held_in else "")
         root = _scratch()
         try:
             with Patches() as pt, tunnel():
@@ -278,6 +284,9 @@ def process_model(job, kind, mode, safe):
 
                 def run():
                     m = ps.run()
+                    m.kg_permeances = [(p[0].value, p[1].value) for p in m.permeances]
+                    if held_in:
+                        m.permeances = [(p[0].convert(held_in, c1), p[1].convert(held_in, c2)) for p in m.permeances]
                     d = Path(root) / ("run%d" % len(os.listdir(root)))
                     m.save(d, is_safe=safe)
                     new = os.listdir(d / "results")
@@ -299,9 +308,9 @@ def process_model(job, kind, mode, safe):
                     F("permeate_condensation_heat", m.permeate_condensation_heat, l.permeate_condensation_heat)
                     F("partial_flux_1", [f[0] for f in m.partial_fluxes], [f[0] for f in l.partial_fluxes])
                     F("partial_flux_2", [f[1] for f in m.partial_fluxes], [f[1] for f in l.partial_fluxes])
-                    F("permeance_1", [p[0].value for p in m.permeances], [p[0].value for p in l.permeances])
-                    F("permeance_2", [p[1].value for p in m.permeances], [p[1].value for p in l.permeances])
-                    F("permeance_units", [p[0].units for p in m.permeances] + [p[1].units for p in m.permeances], [p[0].units for p in l.permeances] + [p[1].units for p in l.permeances])
+                    F("permeance_1", [p[0] for p in m.kg_permeances], [p[0].value for p in l.permeances])
+                    F("permeance_2", [p[1] for p in m.kg_permeances], [p[1].value for p in l.permeances])
+                    F("permeance_units", [Units.kg_m2_h_kPa] * (2 * len(m.permeances)), [p[0].units for p in l.permeances] + [p[1].units for p in l.permeances])
                     F("feed_composition", [c.p for c in m.feed_compositions], [c.p for c in l.feed_compositions])
                     F("feed_composition_basis", [c.type for c in m.feed_compositions], [c.type for c in l.feed_compositions])
                     F("permeate_composition", [c.p for c in m.permeate_composition], [c.p for c in l.permeate_composition])
@@ -313,7 +322,8 @@ def process_model(job, kind, mode, safe):
                     else:
                         for name in ("time", "feed_mass", "feed_temperature", "permeate_temperature", "permeate_pressure"):
                             F("second_generation/" + name, _as_series(getattr(m, name)), _as_series(getattr(l2, name)))
-                        F("second_generation/permeance_1", [p[0].value for p in m.permeances], [p[0].value for p in l2.permeances])
+                        F("second_generation/permeance_1", [p[0] for p in m.kg_permeances], [p[0].value for p in l2.permeances])
+                        F("second_generation/permeance_2", [p[1] for p in m.kg_permeances], [p[1].value for p in l2.permeances])
                     if isinstance(l0, Exception):
                         job.judge(tag + "/no_conditions/storable", False, "saving a model with initial_conditions=None raised %s: %s" % (type(l0).__name__, l0), R_, inputs)
                     else:
